@@ -241,7 +241,7 @@ def history_case(rng, mode, idx, maxlen):
             ops.append("p.get %d" % k)
         elif r < 0.87:
             j = rng.randint(0, 3)
-            ops.append("p.auto %d %d" % (k, j))
+            ops.append(("p.auto %d %d" if rng.random() < 0.7 else "p.plain %d %d") % (k, j))
             live.add(j); attached[j] = attached.get(k)
         elif r < 0.92:
             ops.append("p.prec %d %s" % (k, H(rng.choice(vs.pprecs))))
@@ -421,7 +421,7 @@ def shared_case(rng, mode, idx, maxlen, unsafe):
             ops.append("p.assign %d %d" % (k, j))
         elif r < 0.88:
             j = rng.randint(0, 3)
-            ops.append("p.auto %d %d" % (k, j))
+            ops.append(("p.auto %d %d" if rng.random() < 0.6 else "p.plain %d %d") % (k, j))
             live.add(j)
         elif r < 0.91:
             ops.append("p.prec %d %s" % (k, H(rng.choice(vs.pprecs))))
@@ -448,6 +448,32 @@ def fmt_num(v):
     return ("%.6f" % v).rstrip("0").rstrip(".") if v != int(v) else "%d" % int(v)
 
 
+def fmt_alt(v, rng):
+    """the same number in one of the other forms `toDouble` accepts: exponent notation, no integer
+    part, no fraction digits (exact decimal value = the double, so the model knows the value)"""
+    if abs(v) == INF:
+        return fmt_num(v)
+    x = rng.random()
+    neg = "-" if v < 0 else ""
+    a = abs(v)
+    if a == int(a):
+        n = int(a)
+        if x < 0.3:
+            return neg + "%d." % n
+        if x < 0.6 and n % 100 == 0 and n > 0:
+            return neg + "%de%s2" % (n // 100, rng.choice(["", "+"]))
+        if x < 0.8:
+            return neg + "%d0e-1" % n
+        return neg + "%de0" % n
+    frac = ("%.6f" % a).rstrip("0")            # d.ddd, exact for the dyadic values used here
+    ip, fp = frac.split(".")
+    if x < 0.35 and ip == "0":
+        return neg + "." + fp
+    if x < 0.7:
+        return neg + "%se-%d" % ((ip + fp).lstrip("0") or "0", len(fp))
+    return neg + frac + "e0"
+
+
 def describe_cases(rng, tier):
     vals = [k / 8.0 for k in range(-24, 41)] + [100.0, 1000.0, 999999.0, 123.5, 0.0625, 0.015625, 1234.25, -512.0, 1e6, 2.0 ** -14, 3e-5]
     cases = []
@@ -464,6 +490,10 @@ def describe_cases(rng, tier):
         sp = lambda: rng.choice(["", "", " ", "  ", "\t"])
         d = ("[" if il else "]") + sp() + fmt_num(lo) + sp() + ";" + sp() + (rng.choice(["inf", "+inf"]) if hi == INF else fmt_num(hi)) + sp() + ("]" if iu else "[") + rng.choice(["", "", " ", "xyz"])
         ops += ["ic.parsenew 1 %s" % S(d), "ic.parse 0 %s" % S(d), "ic.rel 0 1"]
+        if rng.random() < 0.5:
+            # the same interval with its numbers in exponent / short form
+            d2 = ("[" if il else "]") + sp() + fmt_alt(lo, rng) + sp() + ";" + sp() + (rng.choice(["inf", "+inf"]) if hi == INF else fmt_alt(hi, rng)) + sp() + ("]" if iu else "[")
+            ops += ["ic.parsenew 2 %s" % S(d2), "ic.rel 1 2"]
         # malformed / unusual variants
         x = rng.random()
         if x < 0.5:
@@ -478,7 +508,7 @@ def describe_cases(rng, tier):
             ops += ["ic.parse 0 %s" % S("".join(m)), "ic.get 0"]
         elif x < 0.7:
             ops += ["ic.parse 0 %s" % S(rng.choice(["", "[", "[;", "[;]", "[1;2", "1;2]", " [1;2]", "[1,2]", "];[", "[1;2;3]", "[--1;2]", "[1.2.3;4]", "[1;abc]",
-                                                    "[-;1]", "[.;1]", "[e5;1]", "[1e;2]", "[1e+;2]", "[ ; ]", "[1;]", "[;1]", "[inf;1]", "[1;-inf]", "[0.1;0.2]",
+                                                    "[-;1]", "[.;1]", "[e5;1]", "[-.;1]", "[0;-]", "[0;.]", "[0;e5]", "[-e1;1]", "[.e1;1]", "[1e2;.5e1]", "[-1.;1.]", "[25e-1;1e+1]", "[1e-1;1]", "[1e400;inf]", "[1e;2]", "[1e+;2]", "[ ; ]", "[1;]", "[;1]", "[inf;1]", "[1;-inf]", "[0.1;0.2]",
                                                     "[1e2;1e3]", "[1.;2.]", "[.5;1]", "[-0;0]", "[ -inf ; +inf ]", "]-inf;inf[", "[5;1]", "[1;1["])), "ic.get 0"]
         if len(ops) > 300:
             cases.append(["case d%d rat" % len(cases)] + ops)
